@@ -170,3 +170,32 @@ Definition spectrum_assign (pol : Spectrum.policy) (sreq : request -> bool -> Sp
 (* the spectrum requests of a batch, in order *)
 Definition sreqs_of (sreq : request -> bool -> Spectrum.request) (n : network) (rqs : list request) : list Spectrum.request :=
   map (fun rq => sreq rq (r_ok (fst (evaluate n rq)))) rqs.
+
+(* ====================================================================================================
+   Variants selected by what the SOURCE does (translator tie, Gen/BatchGen.v): the pipeline with / without the per-request
+   copies, the request-internal propagations with / without the restore of the designed gains, and the constants the tie
+   compares with the source.
+   ==================================================================================================== *)
+Definition planning_src {SS A : Type} (copy_forward copy_reverse : bool) (assign : SS -> request -> bool -> SS * A)
+           (n : network) (ss : SS) (rqs : list request) : network * SS * list (result * A) :=
+  if copy_forward && copy_reverse then planning assign n ss rqs else planning_nocopy assign n ss rqs.
+(* successive propagations on the same objects WITHOUT writing the designed gains back *)
+Fixpoint run_loads_shared (p : path) (ls : list load) : path * list spectrum :=
+  match ls with
+  | [] => (p, [])
+  | l :: t =>
+      let (p', sp) := run_load p l in
+      let (p'', r) := run_loads_shared p' t in
+      (p'', sp :: r)
+  end.
+Definition run_loads_src (restores : bool) (d p : path) (ls : list load) : path * list spectrum :=
+  if restores then run_loads d p ls else run_loads_shared p ls.
+(* compare_reqs: two requests are one service (aggregated) only if they agree on all of these (and on the shape of their
+   synchronization vectors); a near-twin differs in exactly one of them *)
+Definition aggregation_fields : list string :=
+  ["source"; "destination"; "bidir"; "tsp"; "tsp_mode"; "baud_rate"; "nodes_list"; "loose_list"; "spacing"; "power";
+   "nb_channel"; "f_min"; "f_max"; "format"; "OSNR"; "roll_off"; "tx_power"]%string.
+(* worker_utils.planning: all routes first, then every propagation, then the spectrum fold *)
+Definition pipeline_steps : list string :=
+  ["build_oms_list"; "requests_from_json"; "correct_json_route_list"; "requests_aggregation"; "compute_path_dsjctn";
+   "compute_path_with_disjunction"; "pth_assign_spectrum"]%string.
